@@ -18,7 +18,8 @@ RULE = ('Hypothesis triples for each of match/match_groups/match_all taken from 
         'biased to catastrophic shapes (nested and overlapping quantifiers, alternations, counted repeats, back-references, '
         'look-around, possessive/lazy, fuzzy, reverse, long benign padding that makes compilation slow) plus a seed corpus '
         'of classic ReDoS patterns; subjects = pumpable prefix x n (n up to 100000) + non-matching tail, and repeated '
-        'expensive-but-matching segments; flags from "", i, m, s, ims, junk, None. Oracle: CPU time of the call (cold '
+        'expensive-but-matching segments; 1 in 6: cheap patterns over 3000-30000 distinct tokens (very long result lists) '
+        'with every single letter a-z/A-Z as flag; flags otherwise from "", i, m, s, ims, junk, None. Oracle: CPU time of the call (cold '
         'compile cache) <= 1.5 x measured compile CPU + 0.30 s + 5 us x |subject| + 50 us x |pattern|, and the helper is not '
         'killed by its 6 s CPU cap. Non-trivial: the call raised TimeoutError or used > 10 ms CPU; distinct by triple.')
 ASSUMPTIONS = ['CPU time of an isolated helper process is the measure; wall-clock time is never judged',
@@ -136,6 +137,12 @@ def run_case(case):
 def build_subject(spec):
     """spec = [pump, n, tail, repeat]  ->  (pump * n + tail) * repeat"""
     pump, n, tail, rep = spec
+    if pump == '#words':
+        # n distinct tokens: the result of match_all is long and has no repeats
+        digs = '0123456789abcdefghijklmnopqrstuvwxyz'
+        return tail.join(digs[i // 1296 % 36] + digs[i // 36 % 36] + digs[i % 36] + 'w' for i in range(n))
+    if pump == '#chars':
+        return tail.join(chr(0x4e00 + i) for i in range(n))
     return (pump * n + tail) * rep
 
 
@@ -211,6 +218,16 @@ def cases(draw, funcs):
     if family in ('grammar', 'seed') and n(12) == 0:
         p = pick(['', 'a', 'ab', 'aa', ' ', 'b'])       # plain literals and the empty pattern
         family = 'literal'
+    if family != 'segments' and family != 'padded' and n(6) == 0:
+        # cheap pattern, very many (distinct) results: whatever is done with the matches must stay linear as well
+        p = pick([r'\S+', r'\w+', r'[^ ,]+', r'\S', '.', r'\w', r'(\w)(\w*)', r'\b\w', r'(?:\w+)'])
+        pump, nn, tail, rep = pick(['#words', '#words', '#chars']), pick([3000, 12000, 20000, 30000]), pick([' ', ',', ' ']), 1
+        if pump == '#words' and nn > 20000:
+            nn = 20000
+        family = 'many-results'
+        letters = 'abcdefghijklmnopqrstuvwxyzABCDEFGHIJKLMNOPQRSTUVWXYZ'
+        fl = pick(letters) if n(3) else pick(['i', 'ims', 'm', 's', 'I']) + pick(letters)
+        return {'fn': pick(funcs), 'pattern': p, 'subject': [pump, nn, tail, rep], 'flags': fl, 'family': family}
     flags = pick(['', 'i', 'm', 's', 'ims', 'xyz', None, 'I', 'i', 'ims', ['', 3600], [None, -1], ['i', 1000000], ['', None], ['ims', 0], 'i m s ' * 10 + 'x', 'i,m,s,' * 12 + '!', 'ims' * 3000, ' ' * 40 + 'i' + ' ' * 40 + '?',
                   'I M S' * 9 + 'q'])
     return {'fn': pick(funcs), 'pattern': p, 'subject': [pump, nn, tail, rep], 'flags': flags, 'family': family}
